@@ -71,8 +71,12 @@ class MemConnection(secsgem.common.Connection):
 
     # ---- harness side ----
     def connect(self):
+        """What TcpServerConnection / TcpClientConnection do once the socket is up (exceptions of the handler are logged and ignored there)."""
         self._connected = True
-        self.on_connected({"source": self})
+        try:
+            self.on_connected({"source": self})
+        except Exception:  # noqa: BLE001
+            pass
 
     def feed(self, data: bytes):
         self.on_data({"source": self, "data": bytes(data)})
@@ -82,10 +86,12 @@ class MemConnection(secsgem.common.Connection):
         self._disconnecting = True
         try:
             self.on_disconnecting({"source": self})
-        finally:
+        except Exception:  # noqa: BLE001  (TcpConnection logs and ignores it)
             pass
         try:
             self.on_disconnected({"source": self})
+        except Exception:  # noqa: BLE001
+            pass
         finally:
             self._connected = False
             self._disconnecting = False
